@@ -200,6 +200,12 @@ def r2(ctx):
         ctx.check(not swallowed, fi, f"an exception raised by get() at line {call.lineno} leaves the function",
                   line=call.lineno, role="get:propagates",
                   expected="exception of the worker propagates unchanged", found="a handler around get() reaches a normal exit")
+        # a result that is only fetched when the task reports success is never fetched when it failed: the error never surfaces
+        # (and a loop that waits for it never ends)
+        gated = [unparse(t, 60) for t, pol, _o in cfg.guards(node)
+                 if pol and any(isinstance(x, ast.Call) and isinstance(x.func, ast.Attribute) and x.func.attr == "successful" for x in ast.walk(t))]
+        ctx.check(not gated, fi, f"the get() at line {call.lineno} is reached whether or not the task succeeded", line=call.lineno,
+                  role="get:unconditional", expected="get() not guarded by .successful()", found="; ".join(gated))
 
 
 def _guards_package_work(ana, fi, tr: ast.Try) -> bool:
@@ -375,9 +381,11 @@ def r4(ctx):
 
 @rule("C20", "R6", "CONST", "the donor shortage is detected exactly when no cluster can spare m points (donor accounting of C08)")
 def r6(ctx):
-    from . import c08
+    from . import c08, c13
     ctx.sub(c08.r3)
     ctx.sub(c08.r6)
+    # "... behaves as if the failed call had not happened": until the error is raised nothing has been written into the caller's state
+    ctx.sub(c13.r6, only=(r"input-write:cluster_maintenance\.repopulate_empty_clusters", r"input-write:cluster_maintenance\._move_random_points"))
 
 
 @rule("C20", "R5", "PURE", "a failed call leaves no module-level state behind", evidence=True)
